@@ -83,6 +83,27 @@ Section Guards.
     let occs := flat_map (occ_dirs fuel "" false) sels in
     dup_with_dir occs || existsb (fun o => snd o && ends_with_id (fst o)) occs.
 
+  (* guard 3, third clause: a fragment (inline or spread) under @skip/@include in a selection set
+     that does not also select id plainly: the join id the planner adds for what leaves to another
+     service lands inside the conditional fragment and is left out with it *)
+  Definition cond_frag (s : sel) : bool :=
+    match s with
+    | Inline _ (_ :: _) _ => true
+    | Spread _ (_ :: _) => true
+    | _ => false
+    end.
+  Definition plain_id (s : sel) : bool :=
+    match s with
+    | Field alias name _ [] _ => String.eqb name "id" && String.eqb (rkey alias name) "id"
+    | _ => false
+    end.
+  Definition g_cond_frag_without_id (ptype : string) (narrowed : bool) (s : sel) : bool :=
+    match s with
+    | Field _ _ _ _ sub => existsb cond_frag sub && negb (existsb plain_id sub)
+    | Inline _ _ sub => existsb cond_frag sub && negb (existsb plain_id sub)
+    | Spread _ _ => false
+    end.
+
   (* guard 4: the key id requested only under a type condition that narrows the enclosing type *)
   Definition g_id_narrowed (ptype : string) (narrowed : bool) (s : sel) : bool :=
     match s with Field alias name _ _ _ => narrowed && String.eqb (rkey alias name) "id" | _ => false end.
@@ -116,7 +137,7 @@ Section Guards.
   Definition guards_of (fuel : nat) (root : string) (varnames : list string) (sels : list sel) : list nat :=
     (if existsb (exists_sel fuel g_alias_id root false) sels then [1] else []) ++
     (if str_mem "id" varnames then [2] else []) ++
-    (if g_directive_b fuel sels then [3] else []) ++
+    (if g_directive_b fuel sels || existsb (exists_sel fuel g_cond_frag_without_id root false) sels then [3] else []) ++
     (if existsb (exists_sel fuel g_id_narrowed root false) sels then [4] else []) ++
     (if g_fragments fuel sels then [5] else []).
 End Guards.
